@@ -1274,6 +1274,27 @@ class CodeGenerator(NodeVisitor):
             iteration_indicator = self.temporary_identifier()
             self.writeline(f"{iteration_indicator} = 1")
 
+        # In async mode the loop filter function is an async generator that
+        # is suspended while the loop body runs. Bind it to a name and close
+        # it when the loop is left by an exception, a cancellation or because
+        # the consumer of the render stops early.
+        filter_agen = None
+
+        if node.test and self.environment.is_async:
+            filter_agen = self.temporary_identifier()
+            self.writeline(f"{filter_agen} = {loop_filter_func}(", node)
+            if node.recursive:
+                self.write("reciter")
+            else:
+                if not extended_loop:
+                    self.write("auto_aiter(")
+                self.visit(node.iter, frame)
+                if not extended_loop:
+                    self.write(")")
+            self.write(")")
+            self.writeline("try:")
+            self.indent()
+
         self.writeline(self.choose_async("async for ", "for "), node)
         self.visit(node.target, loop_frame)
         if extended_loop:
@@ -1281,18 +1302,21 @@ class CodeGenerator(NodeVisitor):
         else:
             self.write(" in ")
 
-        if node.test:
-            self.write(f"{loop_filter_func}(")
-        if node.recursive:
-            self.write("reciter")
+        if filter_agen is not None:
+            self.write(filter_agen)
         else:
-            if self.environment.is_async and not extended_loop:
-                self.write("auto_aiter(")
-            self.visit(node.iter, frame)
-            if self.environment.is_async and not extended_loop:
+            if node.test:
+                self.write(f"{loop_filter_func}(")
+            if node.recursive:
+                self.write("reciter")
+            else:
+                if self.environment.is_async and not extended_loop:
+                    self.write("auto_aiter(")
+                self.visit(node.iter, frame)
+                if self.environment.is_async and not extended_loop:
+                    self.write(")")
+            if node.test:
                 self.write(")")
-        if node.test:
-            self.write(")")
 
         if node.recursive:
             self.write(", undefined, loop_render_func, depth):")
@@ -1307,6 +1331,11 @@ class CodeGenerator(NodeVisitor):
         if node.else_:
             self.writeline(f"{iteration_indicator} = 0")
         self.outdent()
+
+        if filter_agen is not None:
+            self.outdent()
+            self.writeline(f"finally: await {filter_agen}.aclose()")
+
         self.leave_frame(
             loop_frame, with_python_scope=node.recursive and not node.else_
         )
